@@ -119,6 +119,19 @@ def run(case, max_steps=300000):
             rec['after_success'] = [r['id'] for r in invs if r['key'] == key and r['kind'] == 'ret']
             invs.append(rec)
             try:
+                if plan.get('nested') is not None:
+                    # the computation asks the cached function for its own key (in its own task), bounded by a timeout:
+                    # that call can only wait for this very computation
+                    try:
+                        rec['nested'] = ('ok', await aio.wait_for(wrapped(key), plan['nested']))
+                    except (aio.TimeoutError, TimeoutError):
+                        rec['nested'] = ('timeout', None)
+                    except aio.CancelledError:
+                        raise
+                    except BaseException as e:  # noqa
+                        if sim.aborted:
+                            raise
+                        rec['nested'] = ('exc', e)
                 if plan['dur'] >= 0:
                     await aio.sleep(plan['dur'])
                 if plan['outcome'] in ('raise', 'raise_base'):
